@@ -118,17 +118,29 @@ theorem fold_contains (es : List Extent) (acc : Extent) (e : Extent) (he : e ∈
       split_ifs at this <;> omega
     · exact ih _ h
 
-theorem merge_box (b : Extent) (shp : Int × Int) (h : Gen.mergeShape b.rmin b.rmax b.cmin b.cmax = some shp)
+/-- the generated `_merge_shape` with `all0d = 0` (no 0-d-only collection) always returns a shape -/
+theorem mergeShape_arrays (b : Extent) : ∃ shp, Gen.mergeShape b.rmin b.rmax b.cmin b.cmax 0 = some shp := by
+  unfold Gen.mergeShape
+  simp only []
+  split_ifs <;> simp_all
+
+theorem merge_box (b : Extent) (a : Int) (shp : Int × Int) (h : Gen.mergeShape b.rmin b.rmax b.cmin b.cmax a = some shp)
     (hv : b.rmin ≤ b.rmax ∧ b.cmin ≤ b.cmax) :
     arrayExtent shp.1 shp.2 (Gen.mergeOffset b.rmin b.rmax b.cmin b.cmax).1 (Gen.mergeOffset b.rmin b.rmax b.cmin b.cmax).2 = b := by
   unfold Gen.mergeShape at h
   simp only [] at h
-  split_ifs at h
-  simp only [Option.some.injEq] at h
-  subst h
-  rw [arrayExtent_eq]
-  simp only [Gen.mergeOffset]
-  cases b; simp only [Extent.mk.injEq]; omega
+  split_ifs at h with h1 h2
+  · simp only [Option.some.injEq] at h
+    subst h
+    simp only [Bool.and_eq_true, decide_eq_true_eq] at h1
+    rw [arrayExtent_eq]
+    simp only [Gen.mergeOffset]
+    cases b; simp only [Extent.mk.injEq]; simp only at h1; omega
+  · simp only [Option.some.injEq] at h
+    subst h
+    rw [arrayExtent_eq]
+    simp only [Gen.mergeOffset]
+    cases b; simp only [Extent.mk.injEq]; omega
 
 theorem boundary_contains (fs : List (Fld K)) (f : Fld K) (hf : f ∈ fs) :
     let b := boundaryL (fs.map Fld.extent)
@@ -159,12 +171,19 @@ theorem mergeL_extent [Add K] [Zero K] (fs : List (Fld K)) (hne : fs ≠ [])
   unfold mergeL at h
   simp only [] at h
   generalize boundaryL (fs.map Fld.extent) = b at h hv ⊢
-  cases hs : Gen.mergeShape b.rmin b.rmax b.cmin b.cmax with
+  cases hs : Gen.mergeShape b.rmin b.rmax b.cmin b.cmax 0 with
   | none => simp [hs] at h
   | some shp =>
     simp only [hs, Option.some.injEq] at h
     subst h
-    exact merge_box b shp hs hv
+    exact merge_box b 0 shp hs hv
+
+/-- `_merge` of array fields always answers (since the /repo fix of `_merge_shape`: (1, 1) on the origin pixel) -/
+theorem mergeL_isSome [Add K] [Zero K] (fs : List (Fld K)) : (mergeL fs).isSome = true := by
+  unfold mergeL
+  simp only []
+  obtain ⟨shp, hs⟩ := mergeShape_arrays (boundaryL (fs.map Fld.extent))
+  simp only [hs, Option.isSome_some]
 
 /-- a merge is the sum of the embeddings (`Props/C06.merge_emb`) -/
 theorem mergeL_emb [AddZeroClass K] (fs : List (Fld K)) (hne : fs ≠ [])
@@ -180,12 +199,12 @@ theorem mergeL_emb [AddZeroClass K] (fs : List (Fld K)) (hne : fs ≠ [])
     have h1 := hcont f hf
     have h2 := f.extent_valid (hpos f hf)
     omega
-  cases hs : Gen.mergeShape b.rmin b.rmax b.cmin b.cmax with
+  cases hs : Gen.mergeShape b.rmin b.rmax b.cmin b.cmax 0 with
   | none => simp [hs] at h
   | some shp =>
     simp only [hs, Option.some.injEq] at h
     subst h
-    rw [emb_mk, merge_box b shp hs hv]
+    rw [emb_mk, merge_box b 0 shp hs hv]
     unfold embAt
     by_cases hin : b.inb r c = true
     · rw [if_pos hin]
